@@ -49,7 +49,10 @@ def run(tier, seed):
     acc = Acc()
     terms = schema_terms()
     seqs = list(sequences(tier))
-    hs, ks = HASHSEEDS[tier], SEEDS[tier]
+    # "random" is replaced by a value derived from VERIF_SEED so that a run can be replayed
+    derived = str((seed * 2654435761 + 12345) % 4294967295)
+    hs = [derived if h == "random" else h for h in HASHSEEDS[tier]]
+    ks = SEEDS[tier]
     rot = seed % len(hs)
     jobs = [(h, k, "digests") for k in ks for h in hs[rot:] + hs[:rot]] + [(h, "0", "sites") for h in hs]
     with ThreadPoolExecutor(max_workers=16) as ex:
@@ -85,12 +88,14 @@ def run(tier, seed):
             if h == hs[0]:
                 continue
             diff = [i for i, (a, b) in enumerate(zip(base["digests"], r["digests"])) if a != b]
-            single = {seqs[i][0] for i in diff if len(seqs[i]) == 1}
+            # a schema is a culprit if it differs alone OR its draw candidates depend on the hash
+            # seed (a singleton can coincide by chance: different order, same picked character)
+            single = {seqs[i][0] for i in diff if len(seqs[i]) == 1} | set(site_of)
             for i in diff:
                 seq = seqs[i]
                 culprits = [j for j in seq if j in single]
                 if culprits:
-                    if len(seq) > 1:
+                    if len(seq) > 1 and not all(j in site_of for j in culprits):
                         continue             # explained by a schema that already differs alone
                     j = culprits[0]
                     site = site_of.get(j, "no-divergent-draw-site-found")
@@ -99,8 +104,8 @@ def run(tier, seed):
                                    "first_divergent_draw": site})
                 else:
                     acc.violation("C17|sequence-depends-on-hash-seed-though-members-do-not",
-                                  {"sequence": [show(terms[j]) for j in seq], "seed": k,
-                                   "hashseeds": [hs[0], h]})
+                                  {"sequence": [show(terms[j]) for j in seq], "seq_index": i,
+                                   "seed": k, "hashseeds": [hs[0], h], "tier": tier})
         for d in base["digests"]:
             acc.outcome((k, d))
     for i, d in site_of.items():
@@ -133,7 +138,15 @@ def replay(case):
         h0, h1 = case["hashseeds"]
         seqs = list(sequences(tier))
         a = child(h0, case["seed"], tier, "digests")["digests"]
-        b = child(h1 if h1 != "random" else "12345", case["seed"], tier, "digests")["digests"]
+        b = child(h1, case["seed"], tier, "digests")["digests"]
         idx = seqs.index((j,))
-        return True if a[idx] != b[idx] else None
+        if a[idx] != b[idx]:
+            return True
+        # the singleton may coincide by chance; any sequence containing the schema counts
+        return True if any(x != y for x, y, q in zip(a, b, seqs) if j in q) else None
+    if "seq_index" in case:
+        h0, h1 = case["hashseeds"]
+        a = child(h0, case["seed"], case.get("tier", "quick"), "digests")["digests"]
+        b = child(h1, case["seed"], case.get("tier", "quick"), "digests")["digests"]
+        return True if a[case["seq_index"]] != b[case["seq_index"]] else None
     return None
